@@ -256,7 +256,16 @@ func (p *parser) expr() (Expr, error) {
 			if t.k != "id" {
 				return nil, fmt.Errorf("'in' or a type expected after quantifier variables")
 			}
-			q.Hi = &Ident{star + t.s}
+			name := t.s
+			if p.isOp(".") {
+				p.next()
+				t2 := p.next()
+				if t2.k != "id" {
+					return nil, fmt.Errorf("type name expected after %s.", name)
+				}
+				name += "." + t2.s
+			}
+			q.Hi = &Ident{star + name}
 		}
 		if err := p.expectOp("::"); err != nil {
 			return nil, err
